@@ -4,6 +4,7 @@ CONSTANTS
   DevPerHandle = TRUE
   DevUnguardedFill = TRUE
   DevFillOnError = TRUE
+  DevKeyNoMethod = FALSE
   NR = 1
   MaxFaults = 0
 ACTION_CONSTRAINT EmitSched
